@@ -144,6 +144,8 @@ def gen_case(rng, big=False, name=None):
         nrows = int(rng.integers(1, 41)) if rng.random() < 0.3 else int(rng.integers(1, 6))
     dt = float(DTS[int(rng.integers(0, len(DTS)))])
     f = np.fft.rfftfreq(n, dt)
+    if not big and f.size <= 130 and rng.random() < 0.15:
+        nrows = int(f.size)                 # as many spectra as frequency samples: a square array is still one spectrum per ROW
     scls = SPEC_CLASSES[int(rng.integers(0, len(SPEC_CLASSES)))]
     fcls = FC_CLASSES[int(rng.integers(0, len(FC_CLASSES)))]
     b = gen_bandwidth(rng, name, f)
